@@ -18,6 +18,9 @@ def run(D, shape, kw=None, split=None, with_output=True, env=None, duals=False, 
     kw = kw or {}
     sc = Scenario()
     sc.sh = sh = shapes.build_portfolio(D, shape, **kw)
+    sc.blocks = []
+    for a in sh.portf.assets:
+        _record_blocks(a, sc.blocks)
     if split is None:
         sc.op = op = sh.portf.setup_optim_problem(sh.prices, sh.tg)
         sc.ops = [op]
@@ -42,6 +45,36 @@ def run(D, shape, kw=None, split=None, with_output=True, env=None, duals=False, 
         res = eao.optimization.Results(value=sc.value, x=sc.x, duals=dl)
         sc.out = eao.io.extract_output(sh.portf, op, res, sh.prices if prices_in_output else None)
     return sc
+
+
+class _Snap:
+    """copy of what an asset's own set-up returned (the portfolio later clears op.A)"""
+
+    def __init__(self, name, op):
+        self.asset = name
+        self.c = np.array(op.c, dtype=object).copy(); self.l = np.array(op.l, dtype=object).copy()
+        self.u = np.array(op.u, dtype=object).copy()
+        self.A = op.A.copy() if op.A is not None else None
+        self.b = np.array(op.b, dtype=object).copy() if op.b is not None else None
+        self.cType = op.cType
+        self.mapping = op.mapping.copy() if op.mapping is not None else None
+        self.n = len(op.c)
+        self.map_nodal_restr = None
+
+
+def _record_blocks(a, log):
+    """harness wrapper on the asset instance: remember what each set-up call of the asset returned, in call order.
+    The portfolio concatenates the assets' variables in exactly this order, which gives every asset's variable block
+    independently of the mapping."""
+    orig = a.setup_optim_problem
+
+    def rec(*args, **kw):
+        r = orig(*args, **kw)
+        costs_only = kw.get('costs_only', args[2] if len(args) > 2 else False)
+        if not costs_only:
+            log.append(_Snap(a.name, r))
+        return r
+    a.setup_optim_problem = rec
 
 
 def lps(sc):
